@@ -7,6 +7,7 @@ from ..loader import AnalysisError, dotted, norm, walk_no_defs
 from ..minieval import MiniEval, Obj, Raised, Unsupported
 from ..paths import FP, PE, Exc, Executor, Out, Semantics
 from ..report import RuleReport
+from ..modelinterp import Bound as Bound_
 from ..rules.common import FlagSem, _bindings, rule_chain, run_flags, through_locals
 from ..rules.frames import (POPPERS, PUSHERS, classify_exc, pushing_functions, run_depth, stack_op)
 
@@ -22,6 +23,8 @@ LEVEL_TEXT = ('Decides necessary structural conditions of C01, for every path/cl
               'grammar x input pairs (functional correctness of the interpreter).')
 TECHNIQUE += '; interpretation of defines_single/defines_list of every expression class on stand-in nodes with a named element in every operand (declared keys cover every operand)'
 LEVEL_TEXT += ' Added clause: every name bound in any operand of an expression (incl. join separators) is a declared key of the rule, so that it is None / [] when it did not match.'
+TECHNIQUE += '; frame-keeping table per construct and exit by frame signatures (undo/pop/merge), negative lookahead per body outcome, leaf-primitive protocol interpreted with a scripted cursor'
+LEVEL_TEXT += ' Added clauses: a lookahead discards its frame on every exit, optional/choice/group merge on success and undo on failure, a skip group keeps the position only; `!e` fails iff e matches and lets foreign exceptions through; every leaf matcher returns and appends exactly what the cursor matched and raises through the failure factory otherwise.'
 LEVEL_NOTE = ('Trusted: contextlib.contextmanager throws the body exception at the yield; unresolved calls may raise '
               'anything; the documented CST table (DESIGN appendix A) is the oracle, written from docs/ast.rst and '
               'docs/syntax.rst.')
@@ -927,5 +930,210 @@ def _derived_operands(a, c) -> set[str]:
     return out
 
 
+# what each construct keeps of its inner frame (ParseStateStack: undo keeps nothing, pop keeps the position, merge keeps position,
+# CST and names - decided by R5), per exit.  kind -> (ops allowed on a normal exit, must some normal exit merge?,
+#                                                     ops allowed on a FailedParse exit, ops allowed on a success signalled by exception)
+_KEEP = {
+    'lookahead': ({'undo'}, False, {'undo'}, set()),
+    'optional': ({'merge', 'undo'}, True, {'undo'}, set()),
+    'choice': ({'merge', 'undo'}, True, {'undo'}, set()),
+    'option': ({'undo'}, False, {'undo'}, {'merge'}),
+    'skipgroup': ({'pop'}, False, {'undo'}, set()),
+    'scope': ({'merge', 'pop'}, True, {'undo'}, set()),
+    'rule': ({'undo'}, False, {'undo'}, set()),
+}
+_KIND_OF_PRIMITIVE = {'if_': 'lookahead', 'optional': 'optional', 'option': 'option', 'skipgroup': 'skipgroup', 'statescope': 'scope',
+                      'rule_call': 'rule'}
+_KIND_OF_CLASS = {'Lookahead': 'lookahead', 'NegativeLookahead': 'lookahead', 'Optional': 'optional', 'Choice': 'choice',
+                  'SkipGroup': 'skipgroup', 'Group': 'scope'}
+
+
+def r7_what_a_frame_keeps(a, tier):
+    from .c05 import constant_parameters, frame_signature
+    rep = RuleReport(
+        'C01.R7',
+        'what a construct keeps of its inner frame, per exit (frame signatures by path-state execution; undo keeps nothing, pop '
+        'keeps the position, merge keeps position, CST and names - R5): a lookahead discards its frame with undo on EVERY exit '
+        '(non-consuming); optional, choice and scopes merge on success and undo on failure; an option merges before it signals '
+        'success; a skip group keeps the position only; a rule frame is always undone (its value and end position travel in the '
+        'RuleResult). Applies to the primitives of the parse context and to every model class _parse that handles frames itself',
+        floor=6,
+    )
+    checked = 0
+    for f in pushing_functions(a):
+        kind = None
+        if f.cls is not None and f.name == '_parse':
+            kind = _KIND_OF_CLASS.get(f.cls.qualname.split('.')[-1])
+        elif f.name in _KIND_OF_PRIMITIVE and f.cls is not None and f.cls.qualname.startswith('tatsu.contexts.'):
+            kind = _KIND_OF_PRIMITIVE[f.name]
+        if kind is None:
+            rep.add({'pusher': f.qualname, 'kind': None, 'note': 'not a documented construct (classified by C05.R3)'})
+            continue
+        try:
+            fixed = constant_parameters(a, f)
+            sig = frame_signature(a, f, fixed)
+        except Exception as e:  # noqa: BLE001
+            raise AnalysisError(f'C01.R7: no frame signature for {f.qualname}: {e}') from e
+        ok_ret, need_merge, ok_fail, ok_signal = _KEEP[kind]
+        rets, fails, signals = [], [], []
+        for k, fam, ops, depth in sig:
+            o = {x.split(':', 1)[1] for x in ops}
+            if not o:
+                continue  # no frame closed on this exit (memo hit; or the frame is left to the caller: R1 balance)
+            if k == 'return' or k == 'next':
+                rets.append(o)
+            elif fam == 'failedparse':
+                fails.append(o)
+            elif fam == 'parseexception':
+                signals.append(o)
+        checked += 1
+        rep.add({'pusher': f.qualname, 'kind': kind, 'parameters_constant_at_every_call': fixed, 'normal_exits': sorted(map(sorted, rets)), 'failedparse_exits': sorted(map(sorted, fails)),
+                 'other_parse_exception_exits': sorted(map(sorted, signals))})
+        for o in rets:
+            if not o <= ok_ret:
+                rep.fail(f.qualname, f'keeps:return:{"+".join(sorted(o))}', f'{f.qualname} ({kind}) closes its frame with {sorted(o)} on a normal exit; a '
+                         f'{kind} may only use {sorted(ok_ret)} there', f.loc)
+        if need_merge and not any('merge' in o for o in rets):
+            rep.fail(f.qualname, 'keeps:never-merges', f'{f.qualname} ({kind}) never merges its frame on a normal exit: what the body matched is lost', f.loc)
+        for o in fails:
+            if not o <= ok_fail:
+                rep.fail(f.qualname, f'keeps:failure:{"+".join(sorted(o))}', f'{f.qualname} ({kind}) closes its frame with {sorted(o)} when the body '
+                         f'fails; only {sorted(ok_fail)} leaves the enclosing frame as it was', f.loc)
+        for o in signals:
+            allowed = ok_signal | ok_fail
+            if not o <= allowed:
+                rep.fail(f.qualname, f'keeps:signal:{"+".join(sorted(o))}', f'{f.qualname} ({kind}) closes its frame with {sorted(o)} on a '
+                         f'ParseException exit; allowed {sorted(allowed)}', f.loc)
+        if kind == 'option' and not any('merge' in o for o in signals):
+            rep.fail(f.qualname, 'keeps:never-merges', f'{f.qualname} never merges its frame before signalling success', f.loc)
+    if checked < 6:
+        rep.fail('tatsu.contexts', 'constructs-missing', f'only {checked} documented frame constructs were found among the frame-pushing functions', None)
+    return rep
+
+
+class _Always(dict):
+    def __init__(self, v):
+        super().__init__()
+        self.v = v
+
+    def get(self, k, d=None):
+        return self.v
+
+
+def r8_leaf_protocol(a, tier):
+    from ..modelinterp import Hook, ModelInterp, Recorder, Stub
+    rep = RuleReport(
+        'C01.R8',
+        'leaf primitives of the parse context (every method of ParseContext without an expression parameter that consults the '
+        'cursor and raises through the failure factory: token, pattern, @name/@int/@uint/@float/@bool, any-char, end-of-text and '
+        'end-of-line checks), interpreted on a stand-in context with a scripted cursor: when the cursor answers with a value the '
+        'primitive does not raise, and if it returns a value it returns the cursor\'s answer (token: the token) and appends exactly '
+        'that value once to the state; when the cursor answers None/False it raises through newexcept and appends nothing',
+        floor=8,
+    )
+    ctx = a.p.cls(CTX)
+    prims = []
+    for name, m in ctx.methods.items():
+        if any(d.split('.')[-1] in ('contextmanager', 'property', 'deprecated') for d in m.decorators) or name.startswith('__'):
+            continue
+        params = [x.arg for x in m.node.args.args][1:]
+        annos = [ast.unparse(x.annotation) if x.annotation is not None else '' for x in m.node.args.args][1:]
+        if any('Func' in an for an in annos):
+            continue
+        calls_cursor = any(isinstance(n, ast.Call) and isinstance(n.func, ast.Attribute) and (
+            norm(n.func.value) in ('self.cursor', 'self.state.cursor') or norm(n.func) == 'self._next') and n.func.attr != 'next_token'
+            for n in walk_no_defs(m.node))
+        raises_factory = any(isinstance(n, ast.Raise) and n.exc is not None and 'newexcept' in ast.unparse(n.exc) for n in walk_no_defs(m.node))
+        if calls_cursor and raises_factory:
+            prims.append((name, m, params))
+    ANSWER = 7  # not a string: a primitive that converts the answer is noticed
+    for name, m, params in sorted(prims):
+        for answer in (ANSWER, None):
+            state = Recorder('state')
+            cursor = Recorder('cursor')
+            cursor.results = _Always(answer)
+            state.attrs['cursor'] = cursor
+            me = Stub(CTX, state=state, cursor=cursor, tracer=Recorder('tracer'), next_token=Hook(lambda *x, **k: None))
+            it = ModelInterp(a, {'regexpp': Hook(lambda x: x)})
+            raised = None
+            ret = None
+            try:
+                ret = it.call_bound(Bound_(me, m), ['OPERAND'] * len(params), {})
+            except Raised as r:
+                raised = r.cls_name
+            except Unsupported as e:
+                raise AnalysisError(f'C01.R8: cannot interpret ParseContext.{name}: {e}') from e
+            appended = [t[1][0] for t in state.trace if t[0] in ('append', 'extend') and t[1]]
+            rep.add({'primitive': name, 'cursor_answers': answer, 'raises': raised, 'returns': repr(ret), 'appends': [repr(x) for x in appended]})
+            if answer is None:
+                if raised is None or 'newexcept' not in raised:
+                    rep.fail(m.qualname, f'leaf:{name}:no-failure', f'ParseContext.{name} does not raise through newexcept when the cursor finds no match '
+                             f'(raises {raised}, returns {ret!r}): the element succeeds on text that does not match', m.loc)
+                if appended:
+                    rep.fail(m.qualname, f'leaf:{name}:append-on-failure', f'ParseContext.{name} appends {appended} although nothing matched', m.loc)
+                continue
+            if raised is not None:
+                rep.fail(m.qualname, f'leaf:{name}:fails-on-match', f'ParseContext.{name} raises {raised} although the cursor matched', m.loc)
+                continue
+            allowed = {ANSWER, 'OPERAND'} if name in ('token', '_token') else {ANSWER}
+            if ret is None or ret == ():
+                if appended:
+                    rep.fail(m.qualname, f'leaf:{name}:append-without-value', f'ParseContext.{name} returns no value but appends {appended}', m.loc)
+            else:
+                if ret not in allowed:
+                    rep.fail(m.qualname, f'leaf:{name}:returns-other', f'ParseContext.{name} returns {ret!r}, not what the cursor matched', m.loc)
+                if len(appended) != 1 or appended[0] is not ret and appended[0] != ret or type(appended[0]) is not type(ret):
+                    rep.fail(m.qualname, f'leaf:{name}:append', f'ParseContext.{name} returns {ret!r} but appends {appended} to the state: the value '
+                             f'of the element in the AST is not the matched value (exactly once)', m.loc)
+    return rep
+
+
+def r7b_negative_lookahead(a, tier):
+    from .c05 import ScopeSem
+    rep = RuleReport(
+        'C01.R7b',
+        'negative lookahead, per outcome of its body (path-state execution of ifnot_ with the body as a hole, and of any model '
+        '_parse that implements it itself): the body matched -> a FailedParse is raised; the body failed with a ParseException -> '
+        'normal exit; a foreign exception of the body is never swallowed; the frame is closed with undo on every exit',
+        floor=1,
+    )
+    cands = [f for f in a.p.functions.values() if (f.name == 'ifnot_' and f.cls is not None and f.cls.qualname == CTX)
+             or (f.name == '_parse' and f.cls is not None and f.cls.qualname.endswith('.NegativeLookahead') and f in pushing_functions(a))]
+    for fn in cands:
+        sem = ScopeSem(a, fn)
+        ex = Executor(a.p, a.ct, a.resolver, sem, raises=a.raises)
+        is_cm = any(d.split('.')[-1] == 'contextmanager' for d in fn.decorators)
+        if not is_cm:
+            continue  # a model method that pushes itself is compared through its frame signature (R7)
+
+        def hole(state):
+            d, fl = state
+            return {Out('next', (d, frozenset(fl | {'body:matched'}))), Out('raise', (d, frozenset(fl | {'body:failed'})), Exc(PE, 'body@with')),
+                    Out('raise', (d, frozenset(fl | {'body:foreign'})), Exc('builtins.ZeroDivisionError', 'body@with'))}
+        outs = ex.run(fn, (0, frozenset()), hole=hole)
+        table = {}
+        for o in outs:
+            _d, fl = o.state
+            body = next((x for x in fl if x.startswith('body:')), 'body:not-run')
+            fam = classify_exc(a, o.exc) if o.exc else '-'
+            table.setdefault(body, set()).add((o.kind, fam))
+        rep.add({'fn': fn.qualname, 'outcomes': {k: sorted(v) for k, v in sorted(table.items())}})
+        m = table.get('body:matched', set())
+        if not m or any(k != 'raise' or fam not in ('failedparse',) for k, fam in m):
+            rep.fail(fn.qualname, 'neglook:match-accepted', f'{fn.qualname}: when the body matches the outcomes are {sorted(m)}; required: a FailedParse '
+                     f'is raised (otherwise !e succeeds where e matches)', fn.loc)
+        f_ = table.get('body:failed', set())
+        if not f_ or any(k == 'raise' for k, _fam in f_):
+            rep.fail(fn.qualname, 'neglook:failure-propagates', f'{fn.qualname}: when the body fails the outcomes are {sorted(f_)}; required: normal exit', fn.loc)
+        g = table.get('body:foreign', set())
+        if not g or any(k != 'raise' or fam != 'foreign' for k, fam in g):
+            rep.fail(fn.qualname, 'neglook:foreign-swallowed', f'{fn.qualname}: a foreign exception of the body ends as {sorted(g)}; required: it propagates '
+                     f'unchanged', fn.loc)
+    if not rep.instances:
+        rep.fail(CTX, 'neglook:missing', 'ParseContext.ifnot_ not found', None)
+    return rep
+
+
 RULES = [r_chain, r1_frames, r1b_semantic_failures, r1c_control_containment, r2_cst, r3_ordered_choice, r4_progress, r5_state_stack,
-         r6_defines_cover_operands]
+         r6_defines_cover_operands, r7_what_a_frame_keeps, r7b_negative_lookahead,
+         r8_leaf_protocol]
